@@ -502,6 +502,30 @@ def check_case(data: dict, lab: Labels) -> None:
         lab.tag("multi-16-or-more-rules")
 
 
+    # the same matcher object, later, on a rebuilt copy of a subtree that was given up (same ids, other
+    # objects): what it returns is about the node at hand
+    node0 = srcs[0]
+    first = mm.match(node0)
+    node0.detach()
+    twin = node0.duplicate()
+    exp_t = None
+    for i in seen:
+        ok, caps = P.ref_match(pats[i], twin, {}, is_node, isinstance_of)
+        if ok:
+            exp_t = (f"r{i}", caps)
+            break
+    got_t = mm.match(twin)
+    if exp_t is None:
+        require(got_t is None, "multi-no-rule-should-match", f"rebuilt twin: {got_t!r:.200}")
+    else:
+        require(got_t is not None and got_t[0] == exp_t[0], "multi-first-matching-rule",
+                f"rebuilt twin: {None if got_t is None else got_t[0]} expected {exp_t[0]}")
+        d_ = _same_caps(dict(got_t[1]), exp_t[1])
+        require(d_ is None, "multi-captures", f"same matcher on a rebuilt twin of a given-up node (same id): {d_}")
+    lab.tag_if(twin.id == node0.id, "same-matcher-on-rebuilt-twin-of-one-id")
+    del first
+
+
 def st_case(ctx: Ctx):
     g = T.TreeGen(leaves=ctx.pick(8, 12), origin_rate=0.3, falsy=True, extra_leaves=("Vals", "Vals", "Strs"))
     raw = st.tuples(st.just("raw"), st_raw_pattern(), st.integers(0, 1000), st.integers(0, 60)).map(list)
